@@ -520,19 +520,28 @@ class Node(FastTypedDict):
                     gpus = [RO(index=gpu, occupation=BUSY) for gpu in gpus]
 
                 # make sure the selected cores exist, are not down, and
-                # occupancy is compatible with the request
+                # occupancy is compatible with the request (a slot may name
+                # a core more than once: count what it already asked for)
+                requested = dict()
                 for ro in cores:
                     assert ro.index < len(self.cores)
-                    ro_available = BUSY - self.cores[ro.index].occupation
+                    ro_available = BUSY - self.cores[ro.index].occupation \
+                                        - requested.get(ro.index, 0)
                     assert ro_available >= ro.occupation
+                    requested[ro.index] = requested.get(ro.index, 0) \
+                                        + ro.occupation
                   # # DOWN check is covered by occupancy check
                   # assert self.cores[ro.index].occupation is not DOWN, \
                   #         'core %d is down' % ro.index
 
+                requested = dict()
                 for ro in gpus:
                     assert ro.index < len(self.gpus)
-                    ro_available = BUSY - self.gpus[ro.index].occupation
+                    ro_available = BUSY - self.gpus[ro.index].occupation \
+                                        - requested.get(ro.index, 0)
                     assert ro_available >= ro.occupation
+                    requested[ro.index] = requested.get(ro.index, 0) \
+                                        + ro.occupation
                   # # DOWN check is covered by occupancy check
                   # assert self.gpus[ro.index].occupation is not DOWN, \
                   #         'gpu %d is down' % ro.index
